@@ -497,14 +497,26 @@ func (c *Ctx) htFactoryRule(r registration, enc *ssa.Function) {
 	}
 	decFamily := ""
 	if dec != nil {
-		for _, b := range dec.Blocks {
-			for _, ins := range b.Instrs {
-				call, ok := ins.(ssa.CallInstruction)
-				if !ok {
-					continue
-				}
-				if sc := call.Common().StaticCallee(); sc != nil && sc.Name() == "SetBlockDecoderFactory" && len(call.Common().Args) >= 2 {
-					decFamily = closureReturnType(call.Common().Args[1])
+		// anywhere in the library code Decode reaches (the per-frame step may be a closure or a helper)
+		for fn := range c.P.Reachable([]*ssa.Function{dec}) {
+			if !load.InScope(fn) {
+				continue
+			}
+			for _, b := range fn.Blocks {
+				for _, ins := range b.Instrs {
+					call, ok := ins.(ssa.CallInstruction)
+					if !ok {
+						continue
+					}
+					if sc := call.Common().StaticCallee(); sc != nil && sc.Name() == "SetBlockDecoderFactory" && len(call.Common().Args) >= 2 {
+						if f := closureReturnType(call.Common().Args[1]); f != "" {
+							if decFamily != "" && decFamily != f {
+								decFamily += "|" + f
+							} else {
+								decFamily = f
+							}
+						}
+					}
 				}
 			}
 		}
